@@ -493,6 +493,46 @@ def run(F):
             r.fail("space|%s~%s" % (base, other), sites[0].split(" @ ")[-1] if sites else "-",
                    "index spaces `%s` and `%s` are forced equal: an integer ranging over one is used to index an array of the other. "
                    "Chain of uses: %s" % (base, other, " ; ".join("%s = %s [%s]" % (a.split(":", 1)[-1][-50:], c_.split(":", 1)[-1][-50:], w) for a, c_, w in path[:10])))
+    # ---- R18b: struct-field index spaces that are distinct on the reviewed reference tree must stay distinct
+    ref_path = os.path.join(os.path.dirname(TABLE), "r18_reference.json")
+    if os.path.exists(ref_path):
+        import json
+        ref = json.load(open(ref_path))
+        ref_class = {}
+        for ci, members in enumerate(ref["classes"]):
+            for m in members:
+                ref_class[m] = ci
+        n_checked = 0
+        for root, members in sorted(classes.items()):
+            gl = sorted(m for m in members if m == COMP or m.startswith(("FS:", "FE:", "FK:")))
+            ids = {}
+            for m in gl:
+                if m in ref_class:
+                    ids.setdefault(ref_class[m], []).append(m)
+            if len(ids) <= 1:
+                n_checked += len(gl)
+                continue
+            groups = sorted(ids.values(), key=lambda g: (COMP not in g, g[0]))
+            a0 = groups[0][0] if COMP not in groups[0] else COMP
+            for g in groups[1:]:
+                b0 = g[0]
+                path = uf.path(a0, b0)
+                sites = [w for _, _, w in path]
+                # blame the first constraint on the chain that joins two different reference classes
+                blame = None
+                for x, y, w in path:
+                    cx, cy = ref_class.get(x), ref_class.get(y)
+                    if cx is not None and cy is not None and cx != cy:
+                        blame = w
+                        break
+                r.inst("merge|%s~%s" % (a0, b0), blame or (sites[0] if sites else "-"), "violation")
+                r.fail("merge|%s~%s" % (a0, b0), (blame or (sites[0] if sites else "-")).split(" @ ")[-1],
+                       "the index spaces of `%s` and `%s` are distinct on the reviewed reference tree but are now forced equal (an index of one space is used "
+                       "in the other, e.g. a segment index used as a component index). Chain: %s" % (
+                           a0, b0, " ; ".join("%s = %s [%s]" % (x.split(":", 1)[-1][-45:], y.split(":", 1)[-1][-45:], w) for x, y, w in path[:10])))
+        r.inst("reference-partition", "tables/r18_reference.json", "ok", classes=len(ref["classes"]), nodes=len(ref_class), nontrivial=True)
+    else:
+        r.fail("reference|missing", "-", "tables/r18_reference.json is missing (generate with tools/gen_r18_reference.py on a reviewed tree)")
     r.floor("index sites (ndarray / slice indexing) seen", inf.n_index_sites, tab["floors"]["index_sites"])
     r.floor("unification constraints", inf.n_constraints, tab["floors"]["constraints"])
     r.floor("equivalence classes containing a rigid anchor", n_rigid_classes, tab["floors"]["anchored_classes"])
